@@ -432,6 +432,8 @@ def bounded_size(t, depth=0):
         return v is not None and 0 <= v <= 1 << 20
     if is_call(t, "::len", "::len_utf8", "::count", "::capacity"):
         return True
+    if is_call(t, "::from", "::into") and "From<bool>" in t[1]:
+        return True          # a bool as 0 / 1
     if t[0] in ("havoc", "param"):
         return True   # usize cursors / lengths carried around loops; parameters of usize type are lengths here
     if t[0] == "field" and isinstance(t[1], tuple):
